@@ -404,15 +404,43 @@ func compare(s *gen.Shape, exp, act any, env *gen.Env, path string, depth int) s
 				}
 			}
 			if mem == nil {
-				// struct-mapped members carry no discriminator: compare the key sets we have
+				// struct-mapped members carry no discriminator: the member is one whose properties cover the
+				// keys we have. With several such members the value is compared against each of them, and it is
+				// the denoted one if it agrees with any (the discriminator itself is not visible here).
+				var cands []*gen.Member
 				for _, m := range s.Members {
-					if o, e2 := objectOf(m.T, env); o != nil && o.Struct != "" {
-						obj, oenv, mem = o, e2, m
+					o, _ := objectOf(m.T, env)
+					if o == nil || o.Struct == "" {
+						continue
+					}
+					covers := true
+					for k := range em {
+						if k != s.Disc && o.Prop(k) == nil {
+							covers = false
+						}
+					}
+					if covers {
+						cands = append(cands, m)
 					}
 				}
-				if mem == nil {
+				if len(cands) == 0 {
 					return ""
 				}
+				if len(cands) > 1 {
+					first := ""
+					for _, m := range cands {
+						d := compare(&gen.Shape{Kind: s.Kind, Disc: s.Disc, Members: []*gen.Member{m}}, exp, act, env, path, depth+1)
+						if d == "" {
+							return ""
+						}
+						if first == "" {
+							first = d
+						}
+					}
+					return first
+				}
+				mem = cands[0]
+				obj, oenv = objectOf(mem.T, env)
 			} else {
 				obj, oenv = objectOf(mem.T, env)
 			}
